@@ -42,6 +42,18 @@ Theorem C07_independent_run_call : forall (g : Z) (h : list item) (b : obs),
   existsb inv_is_runcode h = false -> In b (exec0 cfg_current g h) -> o_out b = fresh_outcome cfg_current b.
 Proof. exact independent_without_runcode. Qed.
 
+(* "Events that concern an earlier invocation never cut a later one short": the reference outcome itself does not
+   depend on them - on a VM created for the invocation, deleting every event except cancel(own context) and the
+   firing of its own watcher changes nothing.  With C07_guarded: the k-th outcome on the shared VM is a function of
+   the invocation, the globals, and the events of its own context alone. *)
+Theorem C07_foreign_events_irrelevant : forall (e : env) (g : Z) (i : inv),
+  env_ok e ->
+  fresh_of true e g i = fresh_of true e g (mkInv (iapi i) (ibody i) (ictx i) (own_gates e i)).
+Proof. exact (foreign_events_irrelevant true). Qed.
+(* every state a history reaches satisfies that hypothesis *)
+Theorem C07_env_ok_reachable : forall (g : Z) (h : list item) (b : obs), In b (exec0 cfg_current g h) -> env_ok (o_env b).
+Proof. intros g h b I. destruct (exec0_cfgd true g h b I) as (_ & _ & _ & _ & E & _). exact E. Qed.
+
 (* The halt-flag invariant: the flag the current run polls is set only by a watcher of the current run's own
    context, after that context was cancelled - so no run is ever cut short with a nil error (OStale), and
    no invocation of a sequential history finds the VM "already running". *)
